@@ -25,6 +25,10 @@ pub enum C09Case {
     /// end-to-end on a store that held large records, was emptied completely, closed and reopened
     ValE2EEmptied { lens: Vec<u32> },
     KeyE2EEmptied { lens: Vec<u32> },
+    /// a key record of this key length whose chain link is REWRITTEN wider by a delete: chain
+    /// P -> D -> N in one bucket with D in a reused slot at the start of the key file and N beyond
+    /// 128 KiB (or 16 KiB); deleting D makes P's link grow from one byte to three (two)
+    KeyLinkWiden { lens: Vec<u32>, far: u32 },
 }
 
 /// offsets at both ends of every vu64 width, for the raw offset and for offset/8
@@ -121,6 +125,18 @@ fn cases(tier: Tier, seed: u64) -> Vec<C09Case> {
     }
     c.push(C09Case::ValE2EEmptied { lens: vec![0, 15, 1000, 1100, 1500, 2990, 3000, 5000] });
     c.push(C09Case::KeyE2EEmptied { lens: vec![10, 880, 900, 1030, 2000] });
+    // key lengths around the points where the record exactly fills its slot, for small and large classes
+    for (far, lens) in [
+        (200_000u32, (4u32..=13).collect::<Vec<u32>>()),
+        (200_000, (116..=125).collect()),
+        (200_000, (244..=254).collect()),
+        (200_000, (370..=382).collect()),
+        (200_000, (1010..=1022).collect()),
+        (20_000, (4..=13).collect()),
+        (20_000, (370..=382).collect()),
+    ] {
+        c.push(C09Case::KeyLinkWiden { lens, far });
+    }
     let mut kl = e2e_key_lengths(tier, seed);
     kl.sort_by(|a, b| b.cmp(a));
     for ch in kl.chunks(E2E_CHUNK) {
@@ -379,6 +395,89 @@ fn e2e_one_v(is_key: bool, len: u32, aged: u8, w: &WCtx) -> Result<(), Failure> 
     r.map(|_| ())
 }
 
+fn link_widen_one(len: u32, far: u32, w: &WCtx) -> Result<bool, Failure> {
+    crate::exec::tick();
+    let ctx = w.ctx();
+    let r = guarded(&ctx, || {
+        let io = |e: std::io::Error| Failure::new("error", None, format!("key length {len}: call returned Err: {e}"));
+        let db = abyssiniandb::open_file(&ctx.dir).map_err(|e| Failure::new("error", None, format!("open_file: {e}")))?;
+        let mut m = open_map(&db, "s", Kt::Bytes, &Params::plain(Buckets::BucketsSize(1))).map_err(|e| Failure::new("error", None, format!("open: {e}")))?;
+        let mut model: std::collections::BTreeMap<Vec<u8>, Vec<u8>> = std::collections::BTreeMap::new();
+        let mut put = |m: &mut Box<dyn crate::dbx::MapH>, model: &mut std::collections::BTreeMap<Vec<u8>, Vec<u8>>, k: Vec<u8>, v: Vec<u8>| -> Result<(), Failure> {
+            m.put(&k, &v).map_err(io)?;
+            model.insert(k, v);
+            Ok(())
+        };
+        // A takes the first slot of the key file; fillers push the end beyond `far`
+        let a = b"AAAA".to_vec();
+        put(&mut m, &mut model, a.clone(), vec![1])?;
+        let mut i = 0u32;
+        let mut grown = 0u32;
+        while grown < far {
+            let l = 40_000u32.min(far - grown).max(500);
+            // values of 300 bytes: the value file passes 1 KiB, so that later value offsets need the
+            // two bytes the slot-size estimate assumes (no slack from that field)
+            put(&mut m, &mut model, pattern_bytes(l as usize, 7000 + i), pattern_bytes(300, i))?;
+            grown += l;
+            i += 1;
+        }
+        let n = b"NNNNNNNN-far-successor".to_vec();
+        put(&mut m, &mut model, n.clone(), pattern_bytes(9, 1))?;
+        // D reuses A's slot at the start of the file and links to N
+        m.delete(&a).map_err(io)?;
+        model.remove(&a);
+        let d = b"DDDD".to_vec();
+        put(&mut m, &mut model, d.clone(), vec![3])?;
+        // P: the key of the requested length, linked to D by a one-byte link
+        let p = pattern_bytes(len as usize, 4242);
+        put(&mut m, &mut model, p.clone(), pattern_bytes(5, 2))?;
+        // one more record right behind P, then the delete that widens P's link
+        let q = b"QQQQ-neighbour".to_vec();
+        put(&mut m, &mut model, q.clone(), pattern_bytes(6, 3))?;
+        m.flush().map_err(io)?;
+        let f0 = crate::exec::read_files(&ctx.dir, "s").map_err(|e| Failure::new("infra", None, format!("read: {e}")))?;
+        let d0 = decoder::decode(Kt::Bytes, &f0[0], &f0[1], &f0[2]);
+        // spare bytes of P's slot vs the bytes its link will grow by
+        let spare = d0.entries.iter().find(|e| e.key == p).map(|e| e.key_size.saturating_sub(e.key_enc)).unwrap_or(99);
+        let doff = d0.entries.iter().find(|e| e.key == d).map(|e| e.key_off).unwrap_or(0);
+        let noff = d0.entries.iter().find(|e| e.key == n).map(|e| e.key_off).unwrap_or(0);
+        let widen = (vu64_len(noff / 8) as u64).saturating_sub(vu64_len(doff / 8) as u64);
+        let tight = widen > 0 && spare < widen;
+        let near = doff < 1024;
+        m.delete(&d).map_err(io)?;
+        model.remove(&d);
+        // the neighbour is rewritten too
+        put(&mut m, &mut model, q.clone(), pattern_bytes(300, 4))?;
+        for (k, v) in model.iter() {
+            let got = m.get(k).map_err(io)?;
+            if got.as_ref() != Some(v) {
+                efail!("key length {len}: after the delete that widens the chain link of the {len}-byte key, the key of {} bytes reads back {:?} bytes, expected {}", k.len(), got.map(|g| g.len()), v.len());
+            }
+        }
+        m.flush().map_err(io)?;
+        let f = crate::exec::read_files(&ctx.dir, "s").map_err(|e| Failure::new("infra", None, format!("read: {e}")))?;
+        let dd = decoder::decode(Kt::Bytes, &f[0], &f[1], &f[2]);
+        if let Some(c) = dd.structure.first().or(dd.header.first()).or(dd.tiling.first()) {
+            efail!("key length {len}: decoded image after the link-widening delete: {c}");
+        }
+        if dd.contents() != model {
+            efail!("key length {len}: decoded contents differ from the model after the link-widening delete");
+        }
+        if dd.entries.iter().any(|e| e.key_enc > e.key_size) {
+            efail!("key length {len}: a key record exceeds its slot");
+        }
+        drop(m);
+        drop(db);
+        let mut rr = Report::default();
+        if tight && near {
+            rr.bump("link_widened_on_exactly_full_record");
+        }
+        Ok(rr)
+    });
+    w.cleanup(&ctx.dir);
+    r.map(|rr| rr.has("link_widened_on_exactly_full_record"))
+}
+
 fn run_c09(c: &C09Case, w: &WCtx) -> Result<(Report, u64, Vec<u64>), Failure> {
     let mut rep = Report::default();
     let ctx0 = crate::exec::Ctx {
@@ -406,6 +505,21 @@ fn run_c09(c: &C09Case, w: &WCtx) -> Result<(Report, u64, Vec<u64>), Failure> {
             })?;
             let (n, nt) = res.unwrap();
             Ok((r, n, nt))
+        }
+        C09Case::KeyLinkWiden { lens, far } => {
+            let mut nt = Vec::new();
+            for &l in lens {
+                let tight = link_widen_one(l, *far, w).map_err(|mut f| {
+                    f.msg = format!("[link widening, far = {far}] {}", f.msg);
+                    f
+                })?;
+                if tight {
+                    nt.push((3u64 << 40) | ((*far as u64) << 12) | l as u64);
+                    rep.bump("link_widened_on_exactly_full_record");
+                }
+                rep.bump("link_widening_scenarios");
+            }
+            Ok((rep, lens.len() as u64, nt))
         }
         C09Case::ValE2E { lens } | C09Case::KeyE2E { lens } | C09Case::ValE2EAged { lens } | C09Case::ValE2EEmptied { lens } | C09Case::KeyE2EEmptied { lens } => {
             let is_key = matches!(c, C09Case::KeyE2E { .. } | C09Case::KeyE2EEmptied { .. });
@@ -452,7 +566,7 @@ impl Prop for C09 {
         "C09"
     }
     fn rule(&self) -> String {
-        "(a) arithmetic, exhaustive, no I/O, through the layout-probe hook that calls the crate's own encoded_piece_size + roundup: every value length 0..=2^24+2^16 and every key length 0..=2^16 x every pair of 24 offset representatives (both ends of each vu64 width for the raw offset and for offset/8); oracle: independently computed record length (size field of the chosen slot + length field + payload [+ offset fields]) <= slot, slot a legal size class. (b) end to end: for every length 0..=4200, +-3 around 4 KiB*j (j<=8), around 128 KiB, 1 MiB and 16 MiB (values) / up to 64 KiB (keys) [thorough: + 24000 random lengths]: sentinel A, the entry, sentinel B in three different buckets, then the entry's value overwritten one byte shorter, one byte longer and back (keys: value rewritten with other lengths); nine lengths are also stored on an AGED store (9000 entries of 1.1-1.5 KB, every second one deleted: thousands of freed large slots) where all surviving entries are re-read after every write, and eight value / five key lengths on a store that held large value and key records, was EMPTIED completely, closed and reopened; oracle: all three read back byte for byte, the independent decoder finds the record inside its slot with exactly the bytes put, structure and tiling clean, and the raw bytes of both sentinels' value slots never change. evaluations = swept lengths/combinations + end-to-end lengths. Non-trivial: a length L whose slot differs from that of L+1 (distinct by L)."
+        "(a) arithmetic, exhaustive, no I/O, through the layout-probe hook that calls the crate's own encoded_piece_size + roundup: every value length 0..=2^24+2^16 and every key length 0..=2^16 x every pair of 24 offset representatives (both ends of each vu64 width for the raw offset and for offset/8); oracle: independently computed record length (size field of the chosen slot + length field + payload [+ offset fields]) <= slot, slot a legal size class. (b) end to end: for every length 0..=4200, +-3 around 4 KiB*j (j<=8), around 128 KiB, 1 MiB and 16 MiB (values) / up to 64 KiB (keys) [thorough: + 24000 random lengths]: sentinel A, the entry, sentinel B in three different buckets, then the entry's value overwritten one byte shorter, one byte longer and back (keys: value rewritten with other lengths); nine lengths are also stored on an AGED store (9000 entries of 1.1-1.5 KB, every second one deleted: thousands of freed large slots) where all surviving entries are re-read after every write, and eight value / five key lengths on a store that held large value and key records, was EMPTIED completely, closed and reopened; LINK WIDENING: for key lengths around the points where a record exactly fills its slot (classes 16, 128, 256, 384, 1024) a chain P -> D -> N is built in a one-bucket table with D in a reused slot at the start of the key file and N beyond 128 KiB (16 KiB), then D is deleted so that P's stored link grows from one byte to three (two): every entry reads back, decode clean, no record exceeds its slot (label link_widened_on_exactly_full_record counts the cases in which P's slot had fewer spare bytes than the link grew by); oracle: all three read back byte for byte, the independent decoder finds the record inside its slot with exactly the bytes put, structure and tiling clean, and the raw bytes of both sentinels' value slots never change. evaluations = swept lengths/combinations + end-to-end lengths. Non-trivial: a length L whose slot differs from that of L+1 (distinct by L)."
             .to_string()
     }
     fn assumptions(&self) -> Vec<String> {
